@@ -12,6 +12,10 @@ impl std::hash::Hash for TulispObjectEql {
             self.0.as_int().unwrap().hash(state);
         } else if self.0.floatp() {
             self.0.as_float().unwrap().to_bits().hash(state);
+        } else if self.0.null() {
+            state.write_u8(0);
+        } else if self.0.eq(&TulispObject::t()) {
+            state.write_u8(1);
         } else {
             state.write_usize(self.0.addr_as_usize());
         }
